@@ -330,7 +330,10 @@ def g_case(case) -> str:
     for name in VARS:
         if name in case["vars"]:
             t = case["vars"][name]
-            doms.append(f"({VARS.index(name)}%nat, [" + "; ".join(g_val(case, v, t) for v in case["doms"][name]) + "])")
+            # the domain cache presents every element once (HashedIterable keys by identity; since /repo 1997e3c also on
+            # the evaluation that fills the cache): the model is given the domain as the cache presents it
+            dom = list(dict.fromkeys(case["doms"][name]))
+            doms.append(f"({VARS.index(name)}%nat, [" + "; ".join(g_val(case, v, t) for v in dom) + "])")
     sels = "[" + "; ".join(g_opnd(case, s) for s in case["sels"]) + "]"
     cond = f"(Some {g_cond(case, case['cond'])})" if case["cond"] is not None else "None"
     return ("{| e_world := [" + "; ".join(objs) + "]; e_doms := [" + "; ".join(doms) + "]; "
